@@ -341,7 +341,11 @@ class Gen:
     def all_expr(self, d: int) -> str:
         rng = self.rng
         k = rng.choice(["one", "filter", "two", "attr", "truthy", "truthy_get", "guard_inside", "guard_inside2", "star_inside", "dstar_inside",
-                        "star_comp_in_iter", "dependent_filters", "dependent_filters2", "filters_two_fors"])
+                        "star_comp_in_iter", "dependent_filters", "dependent_filters2", "filters_two_fors", "never_evaluated_dup_kw"])
+        if k == "never_evaluated_dup_kw" and self.has("star"):
+            # a part of the comprehension that Python never evaluates for these inputs (no item passes the filter) and that would
+            # raise if it did whenever the dictionary repeats the explicit keyword: nothing may be reported for it
+            return "all(x > total({}, k={}, **{}) for x in {} if x > 100)".format(self.int_leaf(), self.int_leaf(), self.n("d"), self.list_expr(d + 1))
         if k == "dependent_filters":
             # two filters on one ``for``: the second is only defined for the items the first lets through
             return "all(x > {} for x in {} if x != 0 if 12 // x != {})".format(self.int_leaf(), self.list_expr(d + 1), self.int_leaf())
